@@ -1927,7 +1927,7 @@ C("state_machine", arg_types={**SELF, "packet": T.Opaque}, setup=_dsm_setup, pro
       Clause("mid_condition", lambda o, n, r: mid_condition(n.self), ("C10", "C11")),
       Clause("C10.returns_states", lambda o, n, r: r.cls is D.FsmResult and r.states.oid == o.self.states.oid, ("C10",)),
   ],
-  raises=[RaiseClause(f"C10.rejected_pdu_changes_nothing.{e.__name__}", e, when=lambda o: o.packet is not None, props=("C10", "C20"),
+  raises=[RaiseClause(f"C10.rejected_pdu_changes_nothing.{e.__name__}", e, when=lambda o: o.packet is not None, props=("C10",),
                       modifies=[], post=lambda o, n: len([e for e in n.trace if e["kind"] not in ("opaque_call", "vfs")]) == 0)
           for e in DEST_ADMISSION_EXC] + [
       RaiseClause("C10.unretrieved_truthful", D.UnretrievedPdusToBeSent, iff=True,
